@@ -56,8 +56,29 @@ def obs(v):
     raise TypeError(type(v))
 
 
+def exercise(v):
+    """use the value the way programs do before they store it: as an operand of arithmetic with every pendulum class that accepts it, compared,
+    hashed, printed.  None of this may change it (seeded change C14-r6 edited a Duration's constructor record while adding it to a Date)."""
+    probes = [pendulum.date(2020, 1, 31), pendulum.datetime(2020, 1, 31, 12, tz="Europe/Paris"), pendulum.naive(2021, 3, 1), pendulum.duration(days=2, hours=3),
+              D.timedelta(hours=5), pendulum.time(10, 20, 30), 2, 0.5]
+    for p in probes:
+        for f in (lambda: p + v, lambda: v + p, lambda: p - v, lambda: v - p, lambda: v * p, lambda: v / p, lambda: v // p, lambda: v == p, lambda: v < p):
+            try:
+                f()
+            except (TypeError, ValueError, OverflowError, ZeroDivisionError, pendulum.exceptions.PendulumException):
+                pass
+    for f in (lambda: str(v), lambda: repr(v), lambda: hash(v), lambda: -v, lambda: abs(v), lambda: v.in_words(), lambda: v.isoformat(), lambda: v.as_duration(),
+              lambda: next(iter(v.range("days")), None), lambda: v.in_timezone("Asia/Tokyo"), lambda: v.start_of("day")):
+        try:
+            f()
+        except (TypeError, ValueError, OverflowError, AttributeError, pendulum.exceptions.PendulumException):
+            pass
+
+
 def roundtrip(v, ops, tag):
     o = obs(v)
+    exercise(v)
+    req(obs(v) == o, f"{tag}: using the value (arithmetic, comparison, printing) changed it", value=repr(v), differing=[(a, b) for a, b in zip(o, obs(v)) if a != b][:3])
     for op in ops:
         w = do(op, v)
         req(type(w) is type(v), f"{tag}: {op} returns {type(w).__name__} instead of {type(v).__name__}", value=repr(v))
@@ -158,6 +179,7 @@ def nontrivial(c, v):
 
 
 class Values(Sub):
+    ambient = True
     name = "values"
     n = {"quick": 20000, "thorough": 400000}
     shards = {"quick": 4, "thorough": 8}
@@ -175,6 +197,7 @@ class Values(Sub):
 
 
 class AllOverlaps(Sub):
+    ambient = True
     name = "all_overlaps"
     kind = "enum"
     backends = ("rust",)
